@@ -356,6 +356,11 @@ let answer (c : cur) : string =
     (match audit !dir_cfg !dst s0 e0 with DOk p -> "ok " ^ ser_audit p | _ -> "err")
   | "vaudit" -> let cfg = cfg_of (next c) in let k = int_of_string (next c) in let hs = List.init k (fun _ -> next_bytes c) in
     let p = next_audit c in if audit_verify_gen cfg !pf_check hs p then "1" else "0"
+  | "rebuild" -> let cfg = cfg_of (next c) in let le = n_of_dec (next c) in let es = next_velems c in
+    (match rebuild_root cfg es le with Some h -> hex_of_bytes h | None -> "ERR")
+  | "vaudit1" -> let cfg = cfg_of (next c) in let h1 = next_bytes c in let h2 = next_bytes c in let ep = n_of_dec (next c) in
+    let ins = next_velems c in let unch = next_velems c in
+    if verify_consecutive cfg !pf_check (ins, unch) h1 h2 ep then "1" else "0"
   | _ -> "?"
 
 let () =
